@@ -196,7 +196,25 @@ class HistoryGen:
                         clock * (mn // clock + 3) + 1] + ([mx, mx - 1, mx + 1] if mx and mx < 5000 else []))
         dur = max(1, dur)
         amp, det = 1.0, 0.0
-        which = r.choice(["amp", "det", "avg", "dur"])
+        which = r.choice(["amp", "det", "avg", "dur", "resize", "resize"])
+        if which == "resize" and clock > 1:
+            # a resizable, non-constant pulse whose duration is NOT a clock multiple and which sits at
+            # a limit as given: the scheduled (lengthened) pulse has other samples (F37)
+            d0 = clock * (max(mn, 8) // clock + r.choice([1, 2, 5])) + r.randrange(1, clock)
+            kind = r.choice(["avg", "amp", "det"])
+            if kind == "avg" and c.get("min_avg_amp"):
+                m = c["min_avg_amp"]
+                area = m * d0 / 1000 * r.choice([1.0 + 1e-9, 1.02, 1.2])
+                return dict(amp=["blackman", d0, area], det=["const", d0, 0.0], phase=self.phase(), post=0.0)
+            if kind == "amp" and c.get("max_amp") is not None:
+                m = c["max_amp"] * r.choice([1.0, 0.999, 0.9])
+                return dict(amp=["interp1d", d0, [0.0, m * 0.999, m, 0.0, m, m * 0.999, 0.0], "cubic"],
+                            det=["const", d0, 0.0], phase=self.phase(), post=0.0)
+            if kind == "det" and c.get("max_abs_detuning") is not None:
+                m = c["max_abs_detuning"] * r.choice([1.0, 0.999, 0.9]) * r.choice([1.0, -1.0])
+                return dict(amp=["const", d0, 1.0],
+                            det=["interp1d", d0, [0.0, m * 0.999, m, 0.0, m, m * 0.999, 0.0], "cubic"],
+                            phase=self.phase(), post=0.0)
         if which == "amp" and c.get("max_amp") is not None:
             m = c["max_amp"]
             amp = r.choice([m, math.nextafter(m, 0.0), math.nextafter(m, math.inf), m * (1 - 1e-12), m * (1 + 1e-12)])
